@@ -58,6 +58,27 @@ def _nonbreaking_forbidden(handler):
     return isinstance(handler.body[-1], ast.Raise)
 
 
+def check_nonbreaking(rep, rule):
+    """Every HTTP error raised by the static serving functions is non-breaking (so that routes after an embedded
+    StaticApplication -- other static apps, a catch-all page -- are still tried)."""
+    repo = rep.repo
+    st = repo.mod(STATIC)
+    n = 0
+    for q in ('build_file_response', 'StaticApplication.get_file_response', 'StaticFileRoute.get_file_response'):
+        fi = st.func(q)
+        for r in raises_of(fi):
+            if isinstance(r.exc, ast.Call) and raise_type(r) in HTTP_ERRS:
+                n += 1
+                v = kwarg(r.exc, 'is_breaking')
+                ok = isinstance(v, ast.Constant) and v.value is False
+                rep.check(rule, fkey(fi, r) + '#' + ','.join(cond_texts(conds(fi, r)))[:80], ok,
+                          '%s is raised non-breaking' % raise_type(r) if ok else
+                          '%s raised without is_breaking=False: routes after this static application are never tried' % raise_type(r), st, r)
+            elif r.exc is not None:
+                rep.fail(rule, fkey(fi, r), 'serving function raises %s, which becomes a 500' % raise_type(r), st, r)
+    return n
+
+
 def run(rep):
     repo = rep.repo
     st = repo.mod(STATIC)
@@ -114,6 +135,16 @@ def run(rep):
     for r in raises_of(ff):
         rep.check('R14.a', fkey(ff, r), raise_type(r) == 'ValueError', 'refusal raises ValueError (mapped to 403 by the caller)'
                   if raise_type(r) == 'ValueError' else 'refusal raises %s, which the caller does not map to 403' % raise_type(r), st, r)
+    # only regular files are "found": a directory (or other entry) must not shadow a file of a later search path,
+    # and must never be handed to build_file_response (whose 304 branch runs before its own isfile test)
+    frets = [r for r in returns_of(ff) if not (isinstance(r.value, ast.Constant) and r.value.value is None)]
+    ok = bool(frets)
+    for r in frets:
+        cs = conds(ff, r)
+        ok = ok and has_cond(cs, lambda t: isinstance(t, ast.Call) and call_tail(t) == 'isfile' and norm(t.args[0]) == norm(r.value), True)
+    rep.check('R14.a', fkey(ff, 'only regular files'), ok, 'a path is returned only under isfile(<that path>)' if ok else
+              'find_file can return a path that is not a regular file (exists()/isdir/no test): directories shadow files of later '
+              'search paths and reach the 304 branch', st, frets[0] if frets else ff.node)
     ok = isinstance(lim_default, ast.Constant) and lim_default.value is True
     rep.check('R14.a', fkey(ff, 'limit_root default'), ok, 'limit_root defaults to True' if ok else 'limit_root no longer defaults to True', st, ff.node)
     for m in repo.all_internal_modules():
@@ -181,8 +212,8 @@ def run(rep):
                   '%s(...) is under "except %s" raising a non-breaking 403' % (tail, norm(h.type)) if ok else
                   'filesystem call %s is outside any OSError handler that raises a non-breaking Forbidden: an I/O error '
                   '(file vanished, EACCES, EIO) becomes a 500' % short(c), st, c)
-    if n_prims < 4:
-        raise AnalysisError('build_file_response: only %d filesystem primitives found (floor 4)' % n_prims)
+    if n_prims < 3:
+        raise AnalysisError('build_file_response: only %d filesystem primitives found (floor 3)' % n_prims)
     # helpers called under protection: their own primitives are covered by the call sites checked above;
     # make sure nobody else on the serving path calls them unprotected
     for fi in serving[1:]:
@@ -211,7 +242,7 @@ def run(rep):
             ok = h is not None and _nonbreaking_forbidden(h)
             rep.check('R14.c', fkey(fi, c), ok, 'call site of helper %s is protected' % hname if ok else
                       'helper %s (performs file I/O) is called unprotected in %s' % (hname, fi.qualname), m, c)
-    rep.floor('R14.c', 6)
+    rep.floor('R14.c', 4)
 
     # ---- R14.d -----------------------------------------------------------
     rep.rule('R14.d', '304 only for a not-newer file and before open(); success path assigns body and headers')
@@ -281,7 +312,8 @@ def run(rep):
     rep.check('R14.e', fkey(gfr, 'find_file args'), ok, 'find_file(self.search_paths, path)' if ok else
               'find_file is not called with (self.search_paths, path)', st, ffc[0])
     # the found path is what is served
-    bc = [c for c in walk_body(gfr.node) if isinstance(c, ast.Call) and call_name(c) in ('bfr', 'build_file_response')]
+    from .common import local_aliases
+    bc = [c for c in walk_body(gfr.node) if isinstance(c, ast.Call) and call_name(c) in local_aliases(gfr, 'build_file_response')]
     ok = bool(bc) and res_var is not None and all(norm(c.args[0]) == res_var for c in bc)
     rep.check('R14.e', fkey(gfr, 'serves found path'), ok, 'the path returned by find_file is the one served' if ok else
               'build_file_response is not given the path found by find_file', st, bc[0] if bc else gfr.node)
